@@ -25,8 +25,6 @@ import os, sys, time, itertools, random, multiprocessing
 
 from common import *          # mx, Result, reset, main
 import c02_worlds as W
-import c02_rebuild as RB
-REBUILD_SRC = open(RB.__file__).read()
 
 N = "n"; F = "f"; R = "r"       # evaluation specs for one gap; an int = that single query
 
@@ -46,9 +44,8 @@ class Runner:
         self.dyn = {}           # edit prefix -> state-dependent tags of its last edit
         self.qcodep = [compile(q.probe, "<qprobe>", "eval") if q.probe else None for q in world.queries]
         self.qdyn = {}          # edit prefix -> per query state-dependent tags
-        self.rebmemo = {}       # edit prefix -> outcomes on a model rebuilt from the replay model's definitions
-        self.rebcache = {}      # description -> outcomes
         self.builds = 0
+        self.build_error = None
 
     def fresh(self):
         reset()
@@ -75,7 +72,12 @@ class Runner:
         if seq and self.reference(seq[:-1]) is None:
             self.refmemo[seq] = None
             return None
-        env = self.fresh()
+        try:
+            env = self.fresh()
+        except Exception as e:          # the world itself cannot be built on this tree: nothing to compare
+            self.build_error = "%s: %s" % (type(e).__name__, str(e)[:200])
+            self.refmemo[seq] = None
+            return None
         ok = True
         for ei in seq:
             try:
@@ -103,51 +105,7 @@ class Runner:
                         self.dyn[seq + (ei,)] = tuple(eval(pc, env))
                     except Exception:
                         self.dyn[seq + (ei,)] = ()
-            self.rebmemo[seq] = self.rebuilt_outcomes(env["m"])
         return r
-
-    def rebuilt_outcomes(self, m):
-        """Second reference: the queries on a model created directly from the definitions `m` shows (None when the
-        description cannot be taken or rebuilt: then only the replay reference is used)."""
-        try:
-            d = RB.describe(m)
-        except Exception:
-            return None
-        key = repr(d)
-        if key not in self.rebcache:
-            reset()
-            mx.use_formula_error(False)
-            try:
-                m2 = RB.rebuild(mx, d, "M")
-            except Exception as e:
-                self.rebcache[key] = None
-                self.rebuild_errors = getattr(self, "rebuild_errors", 0) + 1
-                return None
-            self.builds += 1
-            env2 = {"m": m2, "mx": mx}
-            self.rebcache[key] = tuple(self.outcome(env2, qi) for qi in range(self.nq))
-        return self.rebcache[key]
-
-    def divergence(self, seq):
-        """Queries on which the edits-only replay model and the model rebuilt from its definitions disagree for
-        the first time at this prefix."""
-        seq = tuple(seq)
-        a = self.reference(seq)
-        b = self.rebmemo.get(seq)
-        if a is None or b is None:
-            return []
-        pa = self.reference(seq[:-1]) if seq else None
-        pb = self.rebmemo.get(seq[:-1]) if seq else None
-        out = []
-        for qi in range(self.nq):
-            if a[qi] != b[qi] and not (pa is not None and pb is not None and pa[qi] != pb[qi]):
-                out.append((qi, a[qi], b[qi]))
-        return out
-
-    def script_rebuild(self, seq, qi):
-        return SCRIPT_REBUILD % {"build": repr(list(self.w.build)),
-                                 "edits": repr([self.w.edits[ei].line for ei in seq]),
-                                 "query": repr(self.w.queries[qi].expr), "world": self.w.name, "rebuild": REBUILD_SRC}
 
     def edit_tags(self, seq, pos):
         return tuple(self.w.edits[seq[pos]].tags) + tuple(self.dyn.get(tuple(seq[:pos + 1]), ()))
@@ -165,7 +123,11 @@ class Runner:
         """Run the live history.  pattern[i] = evaluation spec of the gap before edit i; after the last edit all
         queries are evaluated (forward).  Returns (mismatches, nontrivial, edit_errors):
         mismatches = [(gap, qi, live_outcome, ref_outcome, window_start_gap)] of the FIRST failing gap."""
-        env = self.fresh()
+        try:
+            env = self.fresh()
+        except Exception as e:
+            self.build_error = "%s: %s" % (type(e).__name__, str(e)[:200])
+            return [], False, []
         k = len(seq)
         last_ok = {}            # qi -> (gap, ref outcome) of its last matching evaluation
         first_eval_gap = None
@@ -301,36 +263,6 @@ sys.exit(1 if live != ref else 0)
 '''
 
 
-SCRIPT_REBUILD = '''# C02 replay (world %(world)s): exit 1 iff the model that got the edits (no evaluation in between) answers
-# differently from a model created directly from its current definitions.
-import sys, warnings
-warnings.filterwarnings("ignore")
-import modelx as mx
-mx.use_formula_error(False)
-BUILD = %(build)s
-EDITS = %(edits)s
-QUERY = %(query)s
-
-%(rebuild)s
-
-def out(env, expr):
-    try:
-        return ("value", repr(eval(expr, env)))
-    except Exception as e:
-        return ("raised", type(e).__name__)
-
-m = mx.new_model("M"); env = {"m": m, "mx": mx}
-for ln in BUILD + EDITS:
-    exec(ln, env)
-a = out(env, QUERY)
-d = describe(m)
-m.close()
-b = out({"m": rebuild(mx, d, "M"), "mx": mx}, QUERY)
-print(QUERY, "-> after the edits:", a, " rebuilt from the definitions:", b)
-sys.exit(1 if a != b else 0)
-'''
-
-
 # ------------------------------------------------------------------------------------------------ enumeration
 def patterns(k, nq, level):
     """Evaluation patterns for k edits (specs of gaps 0..k-1).  level 0 = core, 1 = + reverse/partial, 2 = all."""
@@ -358,7 +290,7 @@ def patterns(k, nq, level):
 def tier_plan(tier):
     # (k, pattern level, sample size per first edit or None for exhaustive)
     if tier == "quick":
-        return [(1, 1, None), (2, 0, None), (3, 0, 6)]
+        return [(1, 1, None), (2, 0, None), (3, 0, 4)]
     return [(1, 2, None), (2, 2, None), (3, 1, None), (4, 0, 250), (5, 0, 150)]
 
 
@@ -436,19 +368,6 @@ def work(task):
                 break
             if rn.reference(seq) is None:
                 continue
-            div = rn.divergence(seq)
-            cases.append(("%s|%s|rebuilt" % (world.name, ",".join(map(str, seq))), True))
-            for qi, a, b in div:
-                tags = set(world.queries[qi].tags) | set(rn.edit_tags(seq, len(seq) - 1))
-                tags.update(rn.qdyn.get(tuple(seq[:-1]), {qi: ()})[qi])
-                tags.add("oracle:rebuilt-from-definitions")
-                ent = fails.setdefault(tuple(sorted(tags)), [0, []])
-                ent[0] += 1
-                if len(ent[1]) < 2:
-                    what = ("world %s: after the edits %s (no evaluation) the query %s gives %s; a model created "
-                            "directly from the definitions the edited model shows gives %s"
-                            % (world.name, [world.edits[ei].line for ei in seq], world.queries[qi].expr, a, b))
-                    ent[1].append((what, rn.script_rebuild(seq, qi), "%s|%s|rebuilt" % (world.name, seq)))
             for pat in pats:
                 one(seq, pat)
             done += 1
@@ -457,7 +376,7 @@ def work(task):
         if expired:
             break
     return wi, first, cases, fails, expired, (rn.builds, time.process_time() - t_start, len(shrunk),
-                                              [world.name] + sample_case + ["eval[f]"])
+                                              [world.name] + sample_case + ["eval[f]"], rn.build_error)
 
 
 def run(res, tier, seed):
@@ -492,6 +411,11 @@ def run(res, tier, seed):
                 res.failure_counts[tags] = res.failure_counts.get(tags, 0) + count - len(examples)
             if expired:
                 exhaustive = False
+            if nb[4]:
+                exhaustive = False
+                note = "world %s could not be built: %s" % (worlds[wi].name, nb[4])
+                if note not in res.notes:
+                    res.notes.append(note)
             if first == 1 and len(nb[3]) > 2:
                 res.sample(nb[3], cap=6)
     res.exhaustive = exhaustive
